@@ -242,6 +242,8 @@ def make_alignment(key: str):
         return AxisAngleAlignment()
     if key.startswith(("dpd", "DalitzPlotDecomposition")):
         digit = next(c for c in key if c.isdigit())
+        if "." in key:  # the validator accepts 1.0 as well as 1; the public attribute then reads 1.0
+            return DalitzPlotDecomposition(reference_subsystem=float(digit))
         return DalitzPlotDecomposition(reference_subsystem=int(digit))
     raise ValueError(key)
 
